@@ -1,3 +1,4 @@
+mod loops;
 mod props;
 mod report;
 mod seq;
@@ -15,6 +16,12 @@ fn main() {
         usage();
     }
     world::install_panic_hook();
+    world::install_global_hooks();
+    if args[1] == "C12ROT" {
+        props::c12::rotation_worker(&args[2]);
+        world::cleanup_scratch();
+        std::process::exit(0);
+    }
     let code = if args[1] == "replay" {
         eprintln!("replay not wired for this file yet");
         2
